@@ -25,6 +25,11 @@ pub enum Bad {
     MaskedInShort(u32, u8),
     /// partially false mask (bits) and active channel `ch` output short by one
     MaskedOutShort(u32, u8),
+    /// two channels short by different amounts: channel 0 by one frame, the last channel by half
+    /// (the error has to name the first offending channel with that channel's own length)
+    InShortBoth,
+    /// the same for the output buffers
+    OutShortBoth,
 }
 
 #[derive(Clone, Copy, Debug, PartialEq)]
@@ -110,6 +115,8 @@ impl Op {
                 Bad::WrapPartialInChans(d) => format!("BAD(wrappartialinchans,{})", delta(*d)),
                 Bad::MaskedInShort(m, c) => format!("BAD(maskedinshort,{:b},{})", m, c),
                 Bad::MaskedOutShort(m, c) => format!("BAD(maskedoutshort,{:b},{})", m, c),
+                Bad::InShortBoth => "BAD(inshortboth)".to_string(),
+                Bad::OutShortBoth => "BAD(outshortboth)".to_string(),
             },
         }
     }
@@ -189,6 +196,8 @@ impl Op {
                     "wrappartialinchans" => Bad::WrapPartialInChans(d(1)?),
                     "maskedinshort" => Bad::MaskedInShort(m(1)?, u(2)?),
                     "maskedoutshort" => Bad::MaskedOutShort(m(1)?, u(2)?),
+                    "inshortboth" => Bad::InShortBoth,
+                    "outshortboth" => Bad::OutShortBoth,
                     _ => return Err(err()),
                 })
             }
